@@ -9,7 +9,7 @@ SPEC = {
     "gen": ["Rotations", "GetHkl"],
     "modules": ["DiffcalcProofs.Props.C03", "DiffcalcProofs.Props.C03Sample", "DiffcalcProofs.Props.C03Sample2", "DiffcalcProofs.Props.C03Sample3",
                 "DiffcalcProofs.Props.C03Sample4", "DiffcalcProofs.Props.C03Sample5", "DiffcalcProofs.Props.C03Sample6", "DiffcalcProofs.Props.C03Sample7",
-                "DiffcalcProofs.Props.C03Sample8", "DiffcalcProofs.Props.C03Sample9", "DiffcalcProofs.Props.C03Sample10"],
+                "DiffcalcProofs.Props.C03Sample8", "DiffcalcProofs.Props.C03Sample9", "DiffcalcProofs.Props.C03Sample10", "DiffcalcProofs.Props.C03Assembly", "DiffcalcProofs.Props.C03Detector"],
     "theorems": {"DiffcalcProofs.Props.C03": [
         "C03.detFromQaz_complete", "C03.filter_keeps_exact", "C03.hklMatches_exact", "C03.allOrNothing",
         "C03.asin_roots_complete", "C03.acos_roots_complete"],
@@ -24,7 +24,11 @@ SPEC = {
         "DiffcalcProofs.Props.C03Sample7": ["C03.mid_of_sampleSpec", "C03.sampleConMuPhi_complete"],
         "DiffcalcProofs.Props.C03Sample8": ["C03.mu_unique", "C03.sampleConEtaPhi_complete"],
         "DiffcalcProofs.Props.C03Sample9": ["C03.eta_unique", "C03.sampleConMuChi_complete"],
-        "DiffcalcProofs.Props.C03Sample10": ["C03.etaChiInner_shape", "C03.sampleConEtaChi_complete"]},
+        "DiffcalcProofs.Props.C03Sample10": ["C03.etaChiInner_shape", "C03.sampleConEtaChi_complete"],
+        "DiffcalcProofs.Props.C03Assembly": ["C03.twoSampleDetector_complete", "C03.detSpec_of_position", "C03.decomposition", "C03.bragg_of_fwd",
+                                             "C03.forM'_ok_of_all", "C03.detSamp2_qaz_complete"],
+        "DiffcalcProofs.Props.C03Detector": ["C03.sign_mul_eq_of_mul_eq", "C03.detFromDelta_complete", "C03.detFromNu_complete", "C03.detRemaining_complete",
+                                             "C03.detSamp2_complete"]},
     "level": "proof",
     "rule": "all 185 implemented modes: a random physical position P over (-180,180]^6 (constructed to satisfy the void / bisect / omega constraints where the "
             "mode has them), its constraint values read off with independent geometric pseudo-angles, hkl = forward model of P; P must be a regular point "
@@ -36,8 +40,13 @@ SPEC = {
                "sibling roots cannot lose the list) is proved for: all nine detector+two-sample branches (mu+eta, the three bisect branches, chi+phi, mu+phi directly; "
                "eta+phi, mu+chi, eta+chi by root completeness + the soundness theorem + uniqueness of the last angle, mu_unique / eta_unique); all four single-sample branches of the "
                "detector+reference family (mu, phi, chi, eta given: ZYZ / XZY Euler angles, remainingSample_complete); and the whole three-sample family end to end "
-               "(threeSample_complete: free axis from the y-component, qaz read off, detector from qaz). The six reference+two-sample branches and the assembly of the layer statements "
-               "into get_position-level completeness for the other three families are covered by candidate-level correspondence + round-trip oracle only.",
+               "(threeSample_complete: free axis from the y-component, qaz read off, detector from qaz). The layer statements are assembled end to end for the detector + two-sample family, all 27 mode shapes "
+               "(C03Assembly / C03Detector: detSamp2_complete — a position whose forward model is the requested hkl and which honours the detector constraint and the two sample values "
+               "is among the candidates of __calc_hkl_to_position, every angle mod 2 pi; through decomposition of the forward model into the detector and sample relations, "
+               "bragg_of_fwd (the position's own theta is the Bragg angle computed from the cell), completeness of the detector layers from delta, nu and qaz incl. the sign filter, "
+               "twoSampleDetector_complete, and the walk through the nested generator loops; side condition 'no sibling root makes the sample layer raise' is explicit). "
+               "The six reference+two-sample branches and the end-to-end assembly for the reference+two-sample and detector/naz+reference+one-sample families "
+               "are covered by candidate-level correspondence + round-trip oracle only.",
     "search_widen": 4,
 }
 
